@@ -272,6 +272,12 @@ func main() {
 	polyenv.Setup(config.NETWORK_ID_MAIN_NET, vals)
 	polyenv.InstallHeightLedger()
 	polyenv.GlobalHeight = H0
+	// Part 3 runs first (controlled scheduler, one thread at a time): a change that makes executions share package-level
+	// state turns the free-running 16-worker part below into genuine data races, so a verdict found here ends the run.
+	concurrentPart(r, vals)
+	if r.NViolations() > 0 {
+		r.Finish(map[string]any{"rule": "stopped after the concurrent part reported a violation; free-running parallel parts skipped"})
+	}
 	alpha := alphabet(r.Thorough())
 	srcs := []uint64{S1, S2}
 	covered := []string{}
@@ -425,10 +431,6 @@ func main() {
 		ledgerPart(r, vals, evlog)
 	}
 	config.DefConfig.Common.EnableEventLog = true
-	polyenv.Setup(config.NETWORK_ID_MAIN_NET, vals)
-	polyenv.InstallHeightLedger()
-	polyenv.GlobalHeight = H0
-	concurrentPart(r, vals)
 	r.Note("event_log_settings", []bool{true, false})
 	r.Note("routers_covered", covered)
 	r.Note("routers_not_covered", ccm.RoutersWithoutAdapter())
